@@ -56,7 +56,7 @@ theorem SpOk.charge {win t : Nat} {ws : List Win} (hw : win % nsPerSec = 0)
       subst e
       exact hle
 
-theorem SpOk.admit {W T : Nat} {ws : List Win} (h : SpOk W T ws) : SpOk W T (admitWin ws) := by
+theorem SpOk.admitOk {W T : Nat} {ws : List Win} (h : SpOk W T ws) : SpOk W T (admitWin ws) := by
   obtain ⟨hs, hh⟩ := h
   cases ws with
   | nil => exact ⟨rfl, fun _ _ e => by simp [admitWin] at e⟩
@@ -103,7 +103,7 @@ theorem tally_spaced (win : Nat) (k : Key) (hw : win % nsPerSec = 0) :
         | blocked => simpa [tallyStep] using ih T hs.1 hbo
       | allowed k' r b =>
         cases b with
-        | true => simpa [tallyStep] using (ih T hs.1 hbo).admit
+        | true => simpa [tallyStep] using (ih T hs.1 hbo).admitOk
         | false => simpa [tallyStep] using ih T hs.1 hbo
       | dec k' r => simpa [tallyStep] using ih T hs.1 hbo
       | verdict tid r q b => simp [LEv.at] at hat
